@@ -93,6 +93,16 @@ CHECKS = {
             {"pkg": TOK, "harness": "VxC09_TokAlias4", "tiers": ["thorough"]},
         ],
     },
+    "C14": {
+        "bounds": {"quick": "structural: every struct type of the core AST (ast.go, dml.go) that has a Children() method and that the parser constructs (list regenerated from the current source), with each single field populated in turn (type-directed, depth 3, two-element slices, a distinct fresh node per placement): every node pointer stored anywhere below the root must be visited by ast.Inspect; left-deep operator chains of every height 1..300; parser-produced trees: every tree accepted in the C01 token-soup runs (<= 2 tokens per context)",
+                   "thorough": "parser-produced trees for <= 3 tokens per context"},
+        "outside": "the sqlparser-style DDL helper types of alter.go / types.go / trigger.go; 'nothing that is not part of the tree is visited' (Children() hands out copies whose identity cannot be compared)",
+        "assumptions": ["reachability = reflection over the tree's own fields (engine heap walk / native reflect)"],
+        "runs": [
+            {"pkg": "pkg/sql/ast", "harness": "VxC14_Fields", "generate": "c14_nodes", "expect_asserts": ["C14.visits"]},
+            {"pkg": "pkg/sql/ast", "harness": "VxC14_Deep", "expect_asserts": ["C14.deep"]},
+        ] + parruns(["VxSoup_Start2", "VxSoup_Select2", "VxSoup_From2", "VxSoup_Where2"], ["VxSoup_Start3", "VxSoup_Select3", "VxSoup_From3", "VxSoup_Where3"], ["C14.tree_visits"]),
+    },
     "C11": {
         "bounds": {"quick": "Parser.ParseContext under a context that turns done at its k-th poll (k symbolic 0..63, both Canceled and DeadlineExceeded, arbitrary start depth 0..49): a 70-token nested statement (CTE, IN list, CASE, nested function calls, JOIN ON, BETWEEN, UNION, EXISTS sub-query), an INSERT ... RETURNING with function calls, and every <= 2-token continuation of SELECT / SELECT a FROM t WHERE over the 45-row expression table",
                    "thorough": "<= 3-token continuations"},
